@@ -1,5 +1,5 @@
 /- C13: `RepeatingGroup.Read` inverts the serialisation of a repeating group (flat templates) -/
-import Qfx.Lemmas.Codec
+import Qfx.Lemmas.CodecBuild
 import Qfx.Lemmas.Values
 namespace Qfx
 
@@ -257,5 +257,303 @@ theorem flatMap_serEntry_length (es : List (List (Tag × Bytes))) : (es.flatMap 
   induction es with
   | nil => rfl
   | cons e r ih => simp [stepsOf, serEntry, List.flatMap_cons] at ih ⊢; first | omega | done
+
+
+/-! ## the group comparator on template tags -/
+
+theorem idxOf_cons_ne' (x t : Tag) (r : List Tag) (h : x ≠ t) : (x :: r).idxOf t = r.idxOf t + 1 := by
+  rw [List.idxOf_cons]
+  have : (x == t) = false := by simpa using h
+  simp [this]
+
+theorem idxOf_inj' (l : List Tag) (a b : Tag) (ha : a ∈ l) (hb : b ∈ l) (h : l.idxOf a = l.idxOf b) : a = b := by
+  have h3 : l[l.idxOf a]? = some a := by
+    rw [List.getElem?_eq_getElem (List.idxOf_lt_length_of_mem ha), List.getElem_idxOf]
+  have h4 : l[l.idxOf b]? = some b := by
+    rw [List.getElem?_eq_getElem (List.idxOf_lt_length_of_mem hb), List.getElem_idxOf]
+  rw [h, h4] at h3
+  exact (Option.some.inj h3).symm
+
+theorem groupRankAux_notMem (xs : List Tag) (i : Nat) (t : Tag) (acc : Nat) (h : t ∉ xs) : groupRankAux xs i t acc = acc := by
+  induction xs generalizing i acc with
+  | nil => rfl
+  | cons x r ih =>
+    have hx : ¬ x = t := fun e => h (by simp [e])
+    simp only [groupRankAux, hx, if_false]
+    exact ih _ _ (fun hm => h (by simp [hm]))
+
+theorem groupRankAux_nodup (xs : List Tag) (i : Nat) (t : Tag) (acc : Nat) (hn : xs.Nodup) (h : t ∈ xs) :
+    groupRankAux xs i t acc = i + xs.idxOf t := by
+  induction xs generalizing i acc with
+  | nil => simp at h
+  | cons x r ih =>
+    rw [List.nodup_cons] at hn
+    by_cases hx : x = t
+    · subst hx
+      simp only [groupRankAux, if_true]
+      rw [groupRankAux_notMem r _ _ _ hn.1]; simp
+    · have hm : t ∈ r := by
+        rcases List.mem_cons.1 h with e | e
+        · exact absurd e.symm hx
+        · exact e
+      simp only [groupRankAux, hx, if_false]
+      rw [ih _ _ hn.2 hm, idxOf_cons_ne' _ _ _ hx]; omega
+
+theorem groupRank_mem (ts : List Tag) (t : Tag) (hn : ts.Nodup) (h : t ∈ ts) : groupRank ts t = ts.idxOf t := by
+  unfold groupRank; rw [groupRankAux_nodup ts 0 t _ hn h]; simp
+
+theorem idxOf_pairwise (l : List Tag) (hn : l.Nodup) : l.Pairwise (fun a b => l.idxOf a < l.idxOf b) := by
+  induction l with
+  | nil => simp
+  | cons x r ih =>
+    rw [List.nodup_cons] at hn
+    rw [List.pairwise_cons]
+    constructor
+    · intro b hb
+      have hxb : x ≠ b := fun e => hn.1 (e ▸ hb)
+      rw [List.idxOf_cons_self, idxOf_cons_ne' _ _ _ hxb]; omega
+    · refine List.Pairwise.imp_of_mem ?_ (ih hn.2)
+      intro a b ha hb hab
+      have hxa : x ≠ a := fun e => hn.1 (e ▸ ha)
+      have hxb : x ≠ b := fun e => hn.1 (e ▸ hb)
+      rw [idxOf_cons_ne' _ _ _ hxa, idxOf_cons_ne' _ _ _ hxb]; omega
+
+/-- sorting a duplicate-free list of template tags with `groupTagOrder` yields them in template order -/
+theorem sortTags_group (ts tags : List Tag) (hts : ts.Nodup) (hn : tags.Nodup) (hsub : ∀ t ∈ tags, t ∈ ts) :
+    sortTags (.group ts) tags = ts.filter (fun t => tags.contains t) := by
+  have hle : ∀ a b, OrdKind.le (.group ts) a b = decide (groupRank ts a ≤ groupRank ts b) := by
+    intro a b
+    by_cases h : groupRank ts b < groupRank ts a
+    · have : ¬ groupRank ts a ≤ groupRank ts b := by omega
+      simp [OrdKind.le, OrdKind.less, h, this]
+    · have : groupRank ts a ≤ groupRank ts b := by omega
+      simp [OrdKind.le, OrdKind.less, h, this]
+  apply List.Perm.eq_of_pairwise (le := fun a b => OrdKind.le (.group ts) a b = true)
+  · intro a b ha hb h1 h2
+    have hma : a ∈ ts := hsub a ((sortTags_perm _ _).mem_iff.1 ha)
+    have hmb : b ∈ ts := (List.mem_filter.1 hb).1
+    rw [hle] at h1 h2
+    simp only [decide_eq_true_eq] at h1 h2
+    rw [groupRank_mem ts a hts hma, groupRank_mem ts b hts hmb] at h1 h2
+    exact idxOf_inj' ts a b hma hmb (by omega)
+  · exact List.pairwise_mergeSort (le := fun a b => !(OrdKind.group ts).less b a)
+      (fun a b c h1 h2 => by
+        have := hle a b; have := hle b c; have := hle a c
+        simp only [OrdKind.le] at *
+        simp_all only [decide_eq_true_eq]; omega)
+      (fun a b => by
+        have := hle a b; have := hle b a
+        simp only [OrdKind.le] at *
+        simp_all only [Bool.or_eq_true, decide_eq_true_eq]; omega) tags
+  · refine List.Pairwise.sublist List.filter_sublist ?_
+    refine List.Pairwise.imp_of_mem ?_ (idxOf_pairwise ts hts)
+    intro a b ha hb hab
+    rw [hle]; simp only [decide_eq_true_eq]
+    rw [groupRank_mem ts a hts ha, groupRank_mem ts b hts hb]; omega
+  · refine (sortTags_perm _ _).trans ?_
+    apply (List.perm_ext_iff_of_nodup hn (hts.sublist List.filter_sublist)).2
+    intro x
+    simp only [List.mem_filter, List.contains_iff_mem]
+    exact ⟨fun h => ⟨hsub x h, h⟩, fun h => h.2⟩
+
+
+/-! ## `Write` of entries built by plain setter calls (flat template) -/
+
+/-- the latest value a sequence of setter calls gives to `t` -/
+def latest : List (Tag × Bytes) → Tag → Option Bytes
+  | [], _ => none
+  | (k, v) :: r, t => match latest r t with
+                      | some x => some x
+                      | none => if k = t then some v else none
+
+def fldsOf (e : List (Tag × Bytes)) : List GFld := e.map (fun p => GFld.fld p.1 p.2)
+
+def putAllF : FieldMap → List (Tag × Bytes) → FieldMap
+  | fm, [] => fm
+  | fm, (t, v) :: r => putAllF (fm.put t (.owned [TagValue.init t v])) r
+
+def FieldMap.ownedNE (fm : FieldMap) : Prop := ∀ k f, alFind fm.lookup k = some f → ∃ tv l, f = .owned (tv :: l)
+
+theorem ownedNE_put {fm : FieldMap} (h : fm.ownedNE) (t : Tag) (tv : TagValue) (l : List TagValue) : (fm.put t (.owned (tv :: l))).ownedNE := by
+  intro k f hf
+  by_cases e : k = t
+  · subst e; rw [put_find_self] at hf; injection hf with hf; exact ⟨_, _, hf.symm⟩
+  · rw [put_find_other _ _ _ _ e] at hf; exact h k f hf
+
+theorem ownedNE_allOwned {fm : FieldMap} (h : fm.ownedNE) : fm.allOwned := by
+  intro k f hf; obtain ⟨tv, l, hl⟩ := h k f hf; exact ⟨_, hl⟩
+
+theorem setBytes_ownedNE {fm : FieldMap} (h : fm.ownedNE) (t : Tag) (v : Bytes) :
+    ∃ sr, fm.setBytes t v = .ok sr ∧ sr.fm = fm.put t (.owned [TagValue.init t v]) := by
+  have hex : ∃ sr, fm.setTV (TagValue.init t v) = .ok sr := by
+    unfold FieldMap.setTV
+    split
+    · exact ⟨_, rfl⟩
+    · rename_i hf; obtain ⟨tv, l, hl⟩ := h _ _ hf; cases hl
+    · rename_i s n hf; obtain ⟨tv, l, hl⟩ := h _ _ hf; cases hl
+    · exact ⟨_, rfl⟩
+  obtain ⟨sr, hsr⟩ := hex
+  exact ⟨sr, hsr, (setTV_owned_form (ownedNE_allOwned h) hsr).1⟩
+
+theorem buildEntry_flat (e : List (Tag × Bytes)) : ∀ (fm : FieldMap), fm.ownedNE → buildEntry (fldsOf e) fm = .ok (putAllF fm e) := by
+  induction e with
+  | nil => intro fm _; simp [fldsOf, buildEntry, putAllF]
+  | cons p r ih =>
+    intro fm ho
+    obtain ⟨t, v⟩ := p
+    obtain ⟨sr, hs, hfm⟩ := setBytes_ownedNE ho t v
+    simp only [fldsOf, List.map_cons, buildEntry, hs, hfm, putAllF]
+    exact ih _ (ownedNE_put ho _ _ _)
+
+
+theorem putAllF_inv (e : List (Tag × Bytes)) : ∀ (fm : FieldMap), FMInv fm → FMInv (putAllF fm e) := by
+  induction e with
+  | nil => intro fm h; exact h
+  | cons p r ih => intro fm h; obtain ⟨t, v⟩ := p; exact ih _ (h.put' _ _)
+
+theorem putAllF_ord (e : List (Tag × Bytes)) : ∀ (fm : FieldMap), (putAllF fm e).ord = fm.ord := by
+  induction e with
+  | nil => intro fm; rfl
+  | cons p r ih => intro fm; obtain ⟨t, v⟩ := p; simp only [putAllF]; rw [ih]; rfl
+
+theorem putAllF_find (e : List (Tag × Bytes)) (t : Tag) : ∀ (fm : FieldMap),
+    alFind (putAllF fm e).lookup t =
+      (match latest e t with
+       | some v => some (.owned [TagValue.init t v])
+       | none => alFind fm.lookup t) := by
+  induction e with
+  | nil => intro fm; rfl
+  | cons p r ih =>
+    intro fm
+    obtain ⟨k, v⟩ := p
+    simp only [putAllF, latest]
+    rw [ih]
+    cases hl : latest r t with
+    | some x => rfl
+    | none =>
+      by_cases hk : k = t
+      · subst hk; simp [put_find_self]
+      · simp [hk, put_find_other _ _ _ _ (Ne.symm hk)]
+
+theorem latest_mem (e : List (Tag × Bytes)) (t : Tag) (v : Bytes) (h : latest e t = some v) : (t, v) ∈ e := by
+  induction e with
+  | nil => simp [latest] at h
+  | cons p r ih =>
+    obtain ⟨k, x⟩ := p
+    simp only [latest] at h
+    cases hl : latest r t with
+    | some y => rw [hl] at h; injection h with h; subst h; exact List.mem_cons_of_mem _ (ih hl)
+    | none =>
+      rw [hl] at h
+      by_cases hk : k = t
+      · simp only [hk, if_true] at h; injection h with h; subst h; subst hk; simp
+      · simp [hk] at h
+
+/-- the fields of an entry as `Write` emits them: template order, each tag once, latest value -/
+def canon (ts : List Tag) (e : List (Tag × Bytes)) : List (Tag × Bytes) :=
+  ts.filterMap (fun t => (latest e t).map (fun v => (t, v)))
+
+theorem filterMap_filter_isSome {α β} (l : List α) (F : α → Option β) :
+    (l.filter (fun a => (F a).isSome)).filterMap F = l.filterMap F := by
+  induction l with
+  | nil => rfl
+  | cons a r ih =>
+    cases h : F a with
+    | none => simp [List.filter_cons, List.filterMap_cons, h, ih]
+    | some b => simp [List.filter_cons, List.filterMap_cons, h, ih]
+
+theorem collectTags_putAllF (e : List (Tag × Bytes)) (o : OrdKind) (l : List Tag) :
+    collectTags (putAllF (FieldMap.empty o) e).lookup l = serEntry (l.filterMap (fun t => (latest e t).map (fun v => (t, v)))) := by
+  induction l with
+  | nil => rfl
+  | cons t r ih =>
+    simp only [collectTags, putAllF_find, List.filterMap_cons]
+    cases hl : latest e t with
+    | none =>
+      have : alFind (FieldMap.empty o).lookup t = none := rfl
+      simp only [this, List.nil_append, Option.map_none]
+      exact ih
+    | some v => simp [ih, Field.items, serEntry]
+
+theorem tmplTags_flat (ts : List Tag) : tmplTags (flatTmpl ts) = ts := by
+  simp [tmplTags, flatTmpl, List.map_map, Function.comp_def, Item.tag]
+
+theorem entryTVs_flat (ts : List Tag) (hts : ts.Nodup) (e : List (Tag × Bytes)) (hsub : ∀ p ∈ e, p.1 ∈ ts) :
+    entryTVs (putAllF (FieldMap.empty (.group ts)) e) = serEntry (canon ts e) := by
+  have hi := putAllF_inv e _ (FMInv.empty (.group ts))
+  have hmem : ∀ t, t ∈ (putAllF (FieldMap.empty (.group ts)) e).tags ↔ (latest e t).isSome = true := by
+    intro t
+    rw [hi.same, mem_alKeys_iff, putAllF_find]
+    cases latest e t <;> simp [FieldMap.empty, alFind]
+  have hsubT : ∀ t ∈ (putAllF (FieldMap.empty (.group ts)) e).tags, t ∈ ts := by
+    intro t ht
+    have := (hmem t).1 ht
+    cases hl : latest e t with
+    | none => rw [hl] at this; cases this
+    | some v => exact hsub _ (latest_mem e t v hl)
+  unfold entryTVs
+  rw [putAllF_ord, show (FieldMap.empty (OrdKind.group ts)).ord = .group ts from rfl,
+    sortTags_group ts _ hts hi.tagsNodup hsubT, collectTags_putAllF]
+  unfold canon
+  have hf : ts.filter (fun t => (putAllF (FieldMap.empty (.group ts)) e).tags.contains t) =
+      ts.filter (fun t => ((latest e t).map (fun v => (t, v))).isSome) := by
+    apply List.filter_congr
+    intro t _
+    have := hmem t
+    cases hc : (putAllF (FieldMap.empty (.group ts)) e).tags.contains t <;> cases hs : (latest e t).isSome <;> simp_all
+  rw [hf, filterMap_filter_isSome]
+
+theorem writeEntries_flat (ts : List Tag) (hts : ts.Nodup) : ∀ (es : List (List (Tag × Bytes))), (∀ e ∈ es, ∀ p ∈ e, p.1 ∈ ts) →
+    writeEntries (flatTmpl ts) (es.map fldsOf) = .ok (es.flatMap (fun e => serEntry (canon ts e))) := by
+  intro es
+  induction es with
+  | nil => intro _; simp [writeEntries]
+  | cons e r ih =>
+    intro h
+    have hne : (FieldMap.empty (.group ts)).ownedNE := by
+      intro k f hf; simp [FieldMap.empty, alFind] at hf
+    simp only [List.map_cons, writeEntries, tmplTags_flat]
+    rw [buildEntry_flat e _ hne, ih (fun x hx => h x (by simp [hx]))]
+    simp only [entryTVs_flat ts hts e (h e (by simp)), List.flatMap_cons]
+
+
+
+theorem canon_mem (ts : List Tag) (e : List (Tag × Bytes)) (t : Tag) (v : Bytes) :
+    (t, v) ∈ canon ts e ↔ t ∈ ts ∧ latest e t = some v := by
+  unfold canon
+  rw [List.mem_filterMap]
+  constructor
+  · rintro ⟨a, ha, hm⟩
+    cases hl : latest e a with
+    | none => rw [hl] at hm; cases hm
+    | some x =>
+      rw [hl] at hm; simp only [Option.map_some, Option.some.injEq, Prod.mk.injEq] at hm
+      obtain ⟨h1, h2⟩ := hm; subst h1; subst h2; exact ⟨ha, hl⟩
+  · rintro ⟨ha, hl⟩
+    exact ⟨t, ha, by rw [hl]; rfl⟩
+
+theorem canon_tags_sublist (ts : List Tag) (e : List (Tag × Bytes)) : ((canon ts e).map (·.1)).Sublist ts := by
+  unfold canon
+  induction ts with
+  | nil => simp
+  | cons t r ih =>
+    rw [List.filterMap_cons]
+    cases hl : latest e t with
+    | none => simp only [Option.map_none]; exact ih.cons _
+    | some v => simp only [Option.map_some, List.map_cons]; exact ih.cons₂ _
+
+theorem canon_entryOK (d : Tag) (ts : List Tag) (hn : (d :: ts).Nodup) (e : List (Tag × Bytes)) (hd : (latest e d).isSome = true) :
+    EntryOK d (d :: ts) (canon (d :: ts) e) := by
+  cases hl : latest e d with
+  | none => rw [hl] at hd; cases hd
+  | some v0 =>
+    refine ⟨v0, canon ts e, ?_, ?_⟩
+    · unfold canon; rw [List.filterMap_cons, hl]; rfl
+    · intro p hp
+      obtain ⟨t, v⟩ := p
+      have hm := ((canon_mem ts e t v).1 hp).1
+      rw [List.nodup_cons] at hn
+      exact ⟨fun e' => hn.1 (e' ▸ hm), List.mem_cons_of_mem _ hm⟩
+
 
 end Qfx
